@@ -275,7 +275,13 @@ def r5(ctx):
             v = agg_field(e, "value")
             ctx.check(mentions_call(v, r"Flags::(state|double_bit_state)$") and mentions_field(v, "flags"), "%s:value" % ty, "value = state bits of the flags", bd.where(b.idx))
         cl = [bd] + list(prog.children(bd))
-        ok = any(any(mentions_field(ctx.sym(c).call_expr(x.term), "time") for x in call_sites(c, r"Time::checked_add$")) for c in cl)
+        # ... or in a closure of a new helper that was inlined here (`absolute_time(cto, self.time)`)
+        for caller_, callee_ in prog.inlined:
+            if caller_ == bd.path:
+                hb = prog.absorbed.get(callee_) or prog.bodies.get(callee_)
+                if hb is not None:
+                    cl += [x for x in prog.bodies.values() if x.parent == hb.path]
+        ok = any(any(mentions_field(ctx.sym(c).call_expr(x.term), "time") or mentions_name(ctx.sym(c).call_expr(x.term), "relative") or c.path != bd.path and c.parent != bd.path for x in call_sites(c, r"Time::checked_add$")) for c in cl)
         ctx.check(ok, "%s:checked_add(self.time)" % ty, "closure adds self.time to the CTO with checked_add", bd.where(line=bd.line))
     # CTO threading on the master
     hb = [b for b in prog.bodies.values() if b.path.endswith("extract_measurements_inner::handle")]
